@@ -282,13 +282,15 @@ def _includes(job, ctx):
         for where in ("root", "nested"):
             for fault, path in (("missing", os.path.join(tmp, "nope.inc")), ("directory", os.path.join(tmp, "adir")), ("unreadable", secret),
                                 ("missing-relative", "nope-rel.inc"), ("unparseable", os.path.join(tmp, "garbage.inc"))):
-                for prior in ("fresh", "assigned"):
+                for prior in ("fresh", "assigned", "dynamic"):
                     if only is not None and only != [fmt, where, fault, prior]:
                         continue
                     real_open(os.path.join(tmp, "garbage.inc"), "wb").write(b"\x00\xff{{{<<not a document")
-                    s = cc.Schema()
+                    s = cc.Schema(dynamic=(prior == "dynamic"))
                     s.x = cc.IntField(default=1)
                     s.y = cc.StringField(default="d")
+                    if prior == "dynamic":
+                        s.sub = cc.Schema(dynamic=True)
                     s.sub.x = cc.IntField(default=1)
                     s.sub.l = cc.ListField(cc.IntField(), default=[1])
                     if where == "root":
@@ -301,6 +303,10 @@ def _includes(job, ctx):
                     if prior == "assigned":
                         cfg.x = 7
                         cfg.sub.l.append(4)
+                    if prior == "dynamic":        # fields the configuration gained on the fly, which the document does not name
+                        cfg.extra = 42
+                        cfg.sub.more = [1, 2]
+                        cfg.load_tree({"loaded_extra": "v"})
                     doc = cc.ConfigFormat.get(fmt).dumps(None, tree)
                     before = W.snapshot(cfg, with_ids=True)
                     builtins.open = guarded_open
